@@ -1,3 +1,7 @@
 import SynKitProofs.Props.C15
 import SynKitProofs.Props.C01
 import SynKitProofs.Props.C02
+import SynKitProofs.Match
+import SynKitProofs.GraphAlg
+import SynKitProofs.Props.C06
+import SynKitProofs.Props.C07
